@@ -29,6 +29,8 @@ pub enum Fam {
     Mindustry,
     Savage2,
     Eco,
+    /// Eco over a real HTTP/1.1 exchange (the HTTP client itself runs against the script)
+    EcoHttp,
     Master,
 }
 
@@ -332,6 +334,7 @@ pub fn templates(t: &mut Tape, fam: Fam) -> Vec<Vec<u8>> {
         Fam::Eco => {
             vec![format!("{{\"Info\":{{\"Description\":\"{}\",\"OnlinePlayers\":1}}}}", s(t).replace('"', "")).into_bytes()]
         }
+        Fam::EcoHttp => http_templates(t),
         Fam::Master => {
             let mut a = vec![0xff, 0xff, 0xff, 0xff, 0x66, 0x0a];
             let n = 1 + t.draw(DATA, 4);
@@ -349,6 +352,97 @@ const BOUNDARY_U8: &[u8] = &[0, 1, 0x7f, 0x80, 0xfe, 0xff, 0x1b, 0x0a, b'\\', b'
 const BIG_NUMBERS: &[&str] = &["4294967295", "99999999", "-1", "2147483648", "18446744073709551615", "1e9", "", "65536", "256"];
 
 /// Damage one reply in place.
+/// gzip of the start of an Eco front page whose first string runs on for `n` bytes (a decompression
+/// bomb: about n / 1000 bytes on the wire), built once per process.
+pub fn gzip_bomb(n: usize) -> Vec<u8> {
+    use std::io::Write;
+    static CACHE: std::sync::OnceLock<std::sync::Mutex<std::collections::BTreeMap<usize, Vec<u8>>>> = std::sync::OnceLock::new();
+    let m = CACHE.get_or_init(Default::default);
+    let mut g = m.lock().unwrap();
+    g.entry(n)
+        .or_insert_with(|| {
+            let mut e = flate2::write::GzEncoder::new(Vec::new(), flate2::Compression::best());
+            e.write_all(b"{\"Info\":{\"Description\":\"").unwrap();
+            let block = vec![b'a'; 1 << 20];
+            let mut left = n;
+            while left > 0 {
+                let k = left.min(block.len());
+                e.write_all(&block[.. k]).unwrap();
+                left -= k;
+            }
+            e.finish().unwrap()
+        })
+        .clone()
+}
+
+/// Valid HTTP/1.1 responses carrying an Eco front page (several framings), and the classic abuses
+/// of the framing headers.
+fn http_templates(t: &mut Tape) -> Vec<Vec<u8>> {
+    let body = format!("{{\"Info\":{{\"Description\":\"{}\",\"OnlinePlayers\":1}}}}", small_str(t).replace('"', "")).into_bytes();
+    let head = |extra: &str| format!("HTTP/1.1 200 OK\r\nContent-Type: application/json; charset=utf-8\r\nServer: Kestrel\r\n{extra}\r\n").into_bytes();
+    match t.draw(DATA, 9) {
+        0 | 1 => {
+            let mut d = head(&format!("Content-Length: {}\r\n", body.len()));
+            d.extend_from_slice(&body);
+            vec![d]
+        }
+        2 => {
+            // head and body in separate writes
+            vec![head(&format!("Content-Length: {}\r\n", body.len())), body]
+        }
+        3 => {
+            let mut d = head("Transfer-Encoding: chunked\r\n");
+            let cut = t.draw(DATA, body.len() as u64 + 1) as usize;
+            for part in [&body[.. cut], &body[cut ..]] {
+                if !part.is_empty() {
+                    d.extend_from_slice(format!("{:x}\r\n", part.len()).as_bytes());
+                    d.extend_from_slice(part);
+                    d.extend_from_slice(b"\r\n");
+                }
+            }
+            d.extend_from_slice(b"0\r\n\r\n");
+            vec![d]
+        }
+        4 => {
+            let mut d = head("Connection: close\r\n");
+            d.extend_from_slice(&body);
+            vec![d]
+        }
+        5 => {
+            // announces far more than it sends
+            let n = *t.pick(DATA, &["1073741824", "4294967296", "18446744073709551615", "99999999999999999999", "2147483647", "67108865"]);
+            let mut d = head(&format!("Content-Length: {n}\r\n"));
+            d.extend_from_slice(&body);
+            vec![d]
+        }
+        6 => {
+            // a chunk that announces far more than it sends
+            let n = *t.pick(DATA, &["40000000", "ffffffff", "ffffffffffffffff", "7fffffffffffffff", "4000001"]);
+            let mut d = head("Transfer-Encoding: chunked\r\n");
+            d.extend_from_slice(format!("{n}\r\n").as_bytes());
+            d.extend_from_slice(&body);
+            vec![d]
+        }
+        7 => {
+            // gzip-encoded body that inflates to far more than was sent
+            let mib = *t.pick(DATA, &[1usize, 20, 70, 200]);
+            let gz = gzip_bomb(mib << 20);
+            let mut items = vec![head(&format!("Content-Encoding: gzip\r\nContent-Length: {}\r\n", gz.len()))];
+            for c in gz.chunks(60_000) {
+                items.push(c.to_vec());
+            }
+            items
+        }
+        _ => {
+            // other status lines
+            let st = *t.pick(DATA, &["HTTP/1.1 404 Not Found", "HTTP/1.1 500 Internal Server Error", "HTTP/1.1 301 Moved Permanently\r\nLocation: http://192.0.2.10:3001/frontpage", "HTTP/1.0 200 OK", "HTTP/1.1 100 Continue\r\n\r\nHTTP/1.1 200 OK", "HTTP/1.1 204 No Content"]);
+            let mut d = format!("{st}\r\nContent-Length: {}\r\n\r\n", body.len()).into_bytes();
+            d.extend_from_slice(&body);
+            vec![d]
+        }
+    }
+}
+
 pub fn mutate(t: &mut Tape, d: &mut Vec<u8>, extreme: bool) {
     let choices = if extreme { 12 } else { 10 };
     match t.draw(DATA, choices) {
@@ -487,6 +581,7 @@ pub fn header(fam: Fam, t: &mut Tape) -> Vec<u8> {
         }
         Fam::McLegacy16 | Fam::McLegacy14 | Fam::McLegacyB18 => vec![0xff],
         Fam::Mindustry | Fam::Savage2 | Fam::Eco => Vec::new(),
+        Fam::EcoHttp => b"HTTP/1.1 200 OK\r\n".to_vec(),
         Fam::Master => vec![0xff, 0xff, 0xff, 0xff, 0x66, 0x0a],
     }
 }
